@@ -24,36 +24,10 @@ def demoServer : Conn :=
   let s := c.streams.modRecv fun r => { r with lastProcessedId := 1, nextStreamId := some 3 }
   { c with streams := { s with store := (s.store.insert (Stream.new 1 65535 65535)).1 } }
 
-/-- the invariant holds initially (both roles, any configuration) -/
-theorem goAwayInv_init (g : Cfg) : GoAwayInv (Conn.init g) := by
-  have h : (Conn.init g).goAway = {} ∧ (view (Conn.init g).streams).lpi = 0 ∧
-      (view (Conn.init g).streams).rmax = STREAM_ID_MAX := by
-    unfold Conn.init
-    dsimp only
-    split <;> exact ⟨rfl, rfl, rfl⟩
-  obtain ⟨h1, h2, h3⟩ := h
-  constructor
-  · rw [h2]; exact Nat.zero_le _
-  · intro ga hga; rw [h1] at hga; cases hga
-  · intro ga hga; rw [h1] at hga; cases hga
-  · intro _; exact h3
-  · intro f hf; rw [h1] at hf; cases hf
-  · intro hc; rw [h1] at hc; cases hc
-
-theorem goAwayInv_initServer (g : Cfg) (ecp : Bool) (peer : Bytes) : GoAwayInv (Conn.initServer g ecp peer) := by
-  have h : (Conn.initServer g ecp peer).goAway = {} ∧ (view (Conn.initServer g ecp peer).streams).lpi = 0 ∧
-      (view (Conn.initServer g ecp peer).streams).rmax = STREAM_ID_MAX := by
-    unfold Conn.initServer
-    dsimp only
-    split <;> exact ⟨rfl, rfl, rfl⟩
-  obtain ⟨h1, h2, h3⟩ := h
-  constructor
-  · rw [h2]; exact Nat.zero_le _
-  · intro ga hga; rw [h1] at hga; cases hga
-  · intro ga hga; rw [h1] at hga; cases hga
-  · intro _; exact h3
-  · intro f hf; rw [h1] at hf; cases hf
-  · intro hc; rw [h1] at hc; cases hc
+/-- **the GOAWAY invariant holds initially**, for both roles and every builder configuration -/
+theorem invariant_initially (g : Conn.Cfg) (ecp : Bool) (peer : Bytes) :
+    GoAwayInv (Conn.init g) ∧ GoAwayInv (Conn.initServer g ecp peer) :=
+  ⟨goAwayInv_init g, goAwayInv_initServer g ecp peer⟩
 
 /-- **the `assert!` of `GoAway::go_away` ("GOAWAY stream IDs shouldn't be higher") is exactly
     monotonicity of the announced id** -/
@@ -75,6 +49,8 @@ theorem go_away_now_monotone (c : Conn) (e : Reason) (d : Bytes) (h : GoAwayInv 
   exact (goAwayNow_result c e d c.goAway.isUserInitiated h).2.1
 
 example : GoAwayInv (Conn.init {}) := goAwayInv_init {}
+example : GoAwayInv demoServer := by
+  constructor <;> first | decide | (intro ga hga; revert hga; decide) | (intro f hf; revert hf; decide) | (intro h; revert h; decide)
 
 /-- **`DynConnection::go_away(id, reason)` at its call sites** (`go_away_gracefully`: id = 2^31-1 on a
     connection not going away; the ACK of the shutdown PING: id = `last_processed_id`): with
@@ -156,7 +132,7 @@ theorem recv_goaway_fails_stream_partial (s : Streams) (k : Nat) (st : Stream) (
    (handleError_remoteGoAway st.state debug reason).2⟩
 
 /-- non-vacuity: the demo server holds a stream under key 0 -/
-example : ∃ st, demoServer.streams.store.get? 0 = some st ∧ st.id = 1 := ⟨_, by decide, by decide⟩
+example : (demoServer.streams.store.get? 0).map (·.id) = some 1 := by decide
 
 /-- **a GOAWAY whose last-stream-id is above an earlier one's is a connection error** -/
 theorem recv_goaway_increasing_is_error (s : Streams) (last : Nat) (reason : Reason) (debug : Bytes)
